@@ -38,10 +38,23 @@ def write(t, doc) -> bytes:
         return text.encode("utf-8")
     if t == "yaml":
         import yaml
-        return yaml.safe_dump(doc, default_flow_style=[False, False, True, None][variant % 4], allow_unicode=True).encode("utf-8")
+        style = [False, False, True, None][variant % 4]
+        # PyYAML's emitter folds U+0085 / U+2028 / U+2029 inside quoted scalars when allowed to write them raw and its own loader
+        # does not read them back unchanged; such documents are written with escapes (a defect of the writer, not of graphtage)
+        uni = not any(c in repr_text(doc) for c in ("\x85", "\u2028", "\u2029"))
+        if variant % 5 == 1 and isinstance(doc, list) and len(doc) >= 2:
+            # a stream of several documents ("---" separated) is loaded as the list of those documents
+            return yaml.safe_dump_all(doc, default_flow_style=style, allow_unicode=uni, explicit_start=True).encode("utf-8")
+        if variant % 3 == 0:
+            # equal sub-containers become one shared object, which the dumper writes once with an anchor (&id001) and refers
+            # to with aliases (*id001) afterwards; the loader then hands out the same Python object several times
+            doc = _share_equal_containers(doc)
+        return yaml.safe_dump(doc, default_flow_style=style, allow_unicode=uni).encode("utf-8")
     if t == "plist":
         return plistlib.dumps(doc, fmt=plistlib.FMT_BINARY if variant % 3 == 2 else plistlib.FMT_XML)
     if t == "pickle":
+        if variant % 3 == 0:
+            doc = _share_equal_containers(doc)      # the pickle memo preserves object sharing across the round trip
         return pickle.dumps(doc, protocol=2)
     if t == "csv":
         s = io.StringIO()
@@ -50,6 +63,32 @@ def write(t, doc) -> bytes:
     if t in ("xml", "html"):
         return families.xml_text(doc).encode("utf-8")
     raise ValueError(t)
+
+
+def repr_text(o):
+    """All string content of a document, concatenated (for character-class tests)."""
+    if isinstance(o, str):
+        return o
+    if isinstance(o, dict):
+        return "".join(repr_text(k) + repr_text(v) for k, v in o.items())
+    if isinstance(o, (list, tuple, set, frozenset)):
+        return "".join(repr_text(v) for v in o)
+    return ""
+
+
+def _share_equal_containers(doc):
+    """Same data; sub-containers that are equal (type-strictly, by repr) are one shared object."""
+    seen = {}
+
+    def walk(o):
+        if isinstance(o, dict):
+            o = {k: walk(v) for k, v in o.items()}
+        elif isinstance(o, list):
+            o = [walk(v) for v in o]
+        else:
+            return o
+        return seen.setdefault(repr(o), o) if o else o
+    return walk(doc)
 
 
 def _variant(doc) -> int:
@@ -63,7 +102,9 @@ COMMON = gen.Profile("common", strings="alpha", bool_with_01=False, numeric_stri
 
 # printable text that looks like syntax of one of the formats (a loader that pre-processes the raw text must not touch it)
 PUNCT_STRINGS = ["a, b", "[;,]", "x,}", "(a, b, ]", "k: v", "# no comment", "- x", "'q'", '"dq"', "a\\b", "{}", "[]", "1,", ", ",
-                 "{a, b}", "<tag>", "&amp;", "// c", "/* c */", "yes", "~", "a,\n]", "%d", "$x", "a=b", "true,", "null]"]
+                 "{a, b}", "<tag>", "&amp;", "// c", "/* c */", "yes", "~", "a,\n]", "%d", "$x", "a=b", "true,", "null]",
+                 # Unicode line boundaries other than "\n" (a line-oriented output path must not treat them as line ends)
+                 "a\u2028b", "x\x85y", "p\u2029q"]
 
 
 def common_data(r, depth=0, root=True):
@@ -84,11 +125,28 @@ def common_data(r, depth=0, root=True):
             return r.choice([1.5, 2.25, -0.5, 3.14159, 12.5, 1e-07, 1e+20 + 0.5e4])
         return r.choice([True, False])
     if x < 0.75:
-        return [common_data(r, depth + 1, False) for _ in range(r.randint(0 if not root else 1, 4))]
+        lst = [common_data(r, depth + 1, False) for _ in range(r.randint(0 if not root else 1, 4))]
+        if r.random() < 0.25:
+            _repeat_a_container(r, lst, lst)
+        return lst
     d = {}
     for _ in range(r.randint(0 if not root else 1, 4)):
         d[r.choice(PUNCT_STRINGS) if r.random() < 0.1 else gen.gstr(r, COMMON)] = common_data(r, depth + 1, False)
+    if r.random() < 0.25:
+        _repeat_a_container(r, d, list(d.values()))
     return d
+
+
+def _repeat_a_container(r, into, children):
+    """The same non-empty list / mapping a second time (an equal copy): what YAML anchors and pickle memos are for."""
+    cands = [c for c in children if isinstance(c, (list, dict)) and c]
+    if not cands:
+        return
+    c = copy.deepcopy(r.choice(cands))
+    if isinstance(into, list):
+        into.insert(r.randint(0, len(into)), c)
+    else:
+        into[gen.gstr(r, COMMON) + "r"] = c
 
 
 def mutate_common(r, o):
